@@ -249,6 +249,75 @@ def oracle_c03(c, o):
     return bad
 
 
+def pool_check(ctx, stats):
+    """state pool: random handle-operation sequences against the real StatePool and model/Pool.v"""
+    ok, out = build_harness(["pool"])
+    ctx.oblig("harness-build-pool", ok, out[-2000:])
+    if not ok:
+        return
+    r = ctx.rnd()
+    cases = []
+    for cid in range(150 if ctx.tier == "quick" else 1500):
+        ops = []
+        nh = 0
+        for _ in range(r.randint(3, 40)):
+            k = r.random()
+            if nh == 0 or k < 0.3:
+                ops.append(["new"])
+                nh += 1
+            elif k < 0.5:
+                ops.append(["clone", r.randrange(nh)])
+                nh += 1
+            elif k < 0.8:
+                ops.append(["drop", r.randrange(nh)])
+            else:
+                ops.append(["write", r.randrange(nh), r.randint(1, 99)])
+        cases.append({"id": cid, "ops": ops})
+    outs, errs = run_harness_parallel("pool", cases)
+    ctx.oblig("harness-run-pool", not errs and len(outs) == len(cases), "\n".join(errs)[:1500])
+
+    def opx(o):
+        if o[0] == "new":
+            return "ONew"
+        if o[0] == "clone":
+            return "OClone %d" % o[1]
+        if o[0] == "drop":
+            return "ODrop %d" % o[1]
+        return "OWrite %d %d" % (o[1], o[2])
+    exprs = ["run_codes %s" % coq_list([opx(o) for o in c["ops"]]) for c in cases]
+    prelude = "From NutsV Require Import model.Pool.\nFrom Coq Require Import List.\nImport ListNotations.\n"
+    vals, err = coq_eval_shards("C03_pool", prelude, exprs, shard_size=max(1, len(exprs) // 16 + 1))
+    ctx.oblig("model-eval-pool", err is None, err or "")
+    if err:
+        return
+    nd = 0
+    for c, m in zip(cases, vals):
+        o = outs.get(c["id"])
+        if not o:
+            continue
+        ctx.evaluations += 1
+        codes, snap = m
+        free, rest = snap[0], snap[1:]
+        diffs = []
+        if "panic" in o:
+            violation(ctx, "implementation violates C03: state pool operation panicked: %s" % o["panic"][:200], {"case": c}, found_input=True)
+            continue
+        if codes != o["codes"]:
+            diffs.append("operation results: model %s implementation %s" % (codes, o["codes"]))
+        if len(free) != o["free_len"]:
+            diffs.append("free list length: model %d implementation %d" % (len(free), o["free_len"]))
+        if rest != o["snapshot"]:
+            diffs.append("live handles (handle, cell, strong count, value): model %s implementation %s" % (rest, o["snapshot"]))
+        # statement: a successful write through one handle is visible only through handles of the same cell
+        if diffs:
+            nd += 1
+            if nd <= 3:
+                violation(ctx, "model/implementation correspondence broken (state pool): %s" % diffs[0],
+                          {"case": c, "differences": diffs, "correspondence": "model/Pool.v vs dynamics::StatePool"}, found_input=False)
+    ctx.oblig("correspondence-pool", nd == 0, "%d sequences differ" % nd)
+    stats["pool_sequences"] = len(cases)
+
+
 PRELUDE = ("From NutsV Require Import model.Tree.\nFrom Coq Require Import ZArith QArith List.\n"
            "Import ListNotations.\nOpen Scope Z_scope.\n")
 
@@ -330,6 +399,8 @@ def run(ctx):
                 cc["words"] = cc["words"][:40]
                 violation(ctx, "implementation violates C03: %s" % bad[0], {"case": cc, "failures": bad}, found_input=True)
         ctx.oblig("impl-audit-C03", nb == 0, "%d cases" % nb)
+    if prop == "C03":
+        pool_check(ctx, stats)
     ctx.notes["input_distribution"] = stats
 
 
